@@ -1084,7 +1084,7 @@ def check_case(c, out, groups=None):
                             except Exception:
                                 ok = False
                         if not ok:
-                            bad('compile', f'{key}[{r}]', {'value': float(bo_of[nm]['value'] and F(bo_of[nm]['value']) or 0),
+                            bad('compile', f'{key}[{r}]', {'value': float(F(bo_of[nm]['value'])) if isnum(F(bo_of[nm]['value'])) else None,
                                                          'robust_stdErr': None if exps[1][1] is None else float(exps[1][1]),
                                                          'robust_tTest': None if exps[2][1] is None else float(exps[2][1])},
                                 txt, 'formatted cell does not show value (robust std err) (robust t-test)')
@@ -1236,7 +1236,110 @@ def stream_stats(ctx, n, focus=None, groups=None, name='stats', with_corpus=True
         missing = [k for k in need if by.get(k, 0) == 0]
         if missing:
             ctx.stream_broken(name, f'generator coverage floor not met: no case with {missing}')
+    ctx.notes['_c08_last'] = (cases, outs)
     return nviol_cases
+
+
+def stream_estimated(ctx):
+    """real estimations (binary logit, seeded synthetic data, bootstrap, null likelihood) through the same oracle"""
+    st = ctx.stream('estimated', 'real estimations of a binary logit (2-4 parameters, 120-400 observations, 6-10 bootstrap '
+                    'replications, null log likelihood, LR test against the 2-parameter model); the raw outcome stored in '
+                    'results.data is the input of the same oracle as stream stats; non-trivial = always')
+    rng = ctx.sub_rng('estimated')
+    jobs = [{'seed': rng.randint(1, 10 ** 6), 'n': rng.choice([120, 200, 400]), 'k': rng.choice([3, 4]),
+             'bootstrap': rng.choice([6, 10])} for _ in range(ctx.n(1, 6))]
+    res = ctx.impl_parallel('c08_estimate.py', jobs, extra_env={'PYTHONPATH': REPO_ROOT + '/src'})
+    for job, r in zip(jobs, res):
+        if 'error' in r:
+            ctx.stream_broken('estimated', f'estimation failed for {job}: {r["error"]} {r.get("trace", "")[-400:]}')
+            continue
+        c, o = r['case'], r['out']
+        st.record({'job': job, 'names': c['names'], 'betas': c['betas'], 'L': c['L']}, nontrivial=True)
+        ms, cnt = check_case(c, o)
+        st.extra['comparisons'] = st.extra.get('comparisons', 0) + cnt['compared']
+        if ms:
+            c = dict(c)
+            c['estimation_job'] = job
+            report(ctx, c, ms)
+
+
+def coq_str(s):
+    return '"' + s.replace('"', '""') + '"%string'
+
+
+def stream_rows(ctx, cases, outs):
+    """tie A validation: the generated `compile_rows` (vm_compute) against the rows and cells the implementation
+    produced for compile_estimation_results(formatted=False)"""
+    st = ctx.stream('rows', 'generated compile_rows evaluated in Coq vs the implementation table: same row labels in the '
+                    'same order, and each cell equals the Beta attribute the generated definition names (attributes '
+                    'with equal values are indistinguishable and accepted); non-trivial = Hessian present')
+    items, meta = [], []
+    for c, o in zip(cases, outs):
+        if len(items) >= ctx.n(120, 400) or not isinstance(o, dict) or 'betas' not in o:
+            continue
+        if not all(32 <= ord(ch) < 127 for nm in c['names'] for ch in nm):
+            continue
+        for s_ in (0, 1):
+            for t_ in (0, 1):
+                t = o.get(f'compile_raw_{s_}{t_}')
+                if not isinstance(t, dict) or 'index' not in t:
+                    continue
+                rows = t['index'][len(DEFAULT_STATS):]
+                cand = []
+                bo_of = {b['name']: b for b in o['betas']}
+                ok = True
+                for r in rows:
+                    cell = t['cells'][r].get('M')
+                    owner = next((nm for nm in sorted(c['names'], key=len, reverse=True) if r == nm or r.startswith(nm + ' (')), None)
+                    if owner is None:
+                        ok = False
+                        break
+                    fields = []
+                    for f in BETA_STATE + ['value']:
+                        v = F(bo_of[owner].get(f))
+                        if (v is None and (cell is None or cell == {'str': ''} or cell == 'nan')) or \
+                                (isnum(v) and close(F(cell), v, rel=Fr(1, 10 ** 12))):
+                            fields.append('F_' + f)
+                    cand.append('[' + '; '.join(fields) + ']')
+                if not ok:
+                    continue
+                items.append(f'({"true" if s_ else "false"}, {"true" if t_ else "false"}, '
+                             f'[{"; ".join(coq_str(n) for n in c["names"])}], [{"; ".join(coq_str(r) for r in rows)}], '
+                             f'[{"; ".join(cand)}])')
+                meta.append((c, s_, t_, rows))
+                st.record({'names': c['names'], 'std': s_, 'ttest': t_, 'rows': rows}, nontrivial=c['H'] is not None)
+    if not items:
+        ctx.stream_broken('rows', 'no case available')
+        return
+    text = ('From BV Require Import Model.Stats Gen.Stats.\n'
+            'Definition field_eqb (a b : beta_field) : bool :=\n'
+            '  match a, b with F_name, F_name | F_value, F_value | F_lb, F_lb | F_ub, F_ub | F_stdErr, F_stdErr\n'
+            '  | F_tTest, F_tTest | F_pValue, F_pValue | F_robust_stdErr, F_robust_stdErr | F_robust_tTest, F_robust_tTest\n'
+            '  | F_robust_pValue, F_robust_pValue | F_bootstrap_stdErr, F_bootstrap_stdErr\n'
+            '  | F_bootstrap_tTest, F_bootstrap_tTest | F_bootstrap_pValue, F_bootstrap_pValue => true | _, _ => false end.\n'
+            'Fixpoint rows_ok (m : list (string * beta_field)) (lbl : list string) (cand : list (list beta_field)) : bool :=\n'
+            '  match m, lbl, cand with\n'
+            '  | [], [], [] => true\n'
+            '  | (l, f) :: m, l2 :: lbl, c :: cand => String.eqb l l2 && existsb (field_eqb f) c && rows_ok m lbl cand\n'
+            '  | _, _, _ => false end.\n'
+            'Definition chk (x : bool * bool * list string * list string * list (list beta_field)) : bool :=\n'
+            "  let '(s, t, names, lbl, cand) := x in rows_ok (flat_map (compile_rows s t) names) lbl cand.\n"
+            'Definition cases := [\n' + ';\n'.join(items) + '].\n'
+            'Eval vm_compute in (List.map chk cases).\n')
+    ok, outp = ctx.coq_eval('rows', text)
+    if not ok:
+        ctx.stream_broken('rows', 'model evaluation failed: ' + outp[-600:])
+        return
+    from common import parse_bools
+    bs = parse_bools(outp)
+    if len(bs) != len(items):
+        ctx.stream_broken('rows', f'could not parse model output ({len(bs)} results for {len(items)} cases)')
+        return
+    for b, (c, s_, t_, rows) in zip(bs, meta):
+        if not b:
+            st.disagree({'names': c['names'], 'std': s_, 'ttest': t_}, 'rows of the generated compile_rows', rows)
+    if st.disagreements:
+        ctx.stream_broken('rows', f'{len(st.disagreements)} disagreements, first: {st.disagreements[0]}')
 
 
 LEMMA_GROUPS = [
@@ -1275,6 +1378,7 @@ def failing_input_search(ctx, br):
     focus = FOCUS_OF.get(groups[0]) if groups else None
     note['cases_with_mismatch'] = stream_stats(ctx, ctx.n(400, 4000), focus=focus, groups=groups, name='stats',
                                                with_corpus=False)
+    ctx.notes.pop('_c08_last', None)
 
 
 def run(ctx):
@@ -1294,6 +1398,10 @@ def run(ctx):
         ctx.tie_broken('py2v:Stats', str(e))
     br = ctx.build()
     stream_stats(ctx, ctx.n(320, 6400))
+    cases, outs = ctx.notes.pop('_c08_last')
+    if br.ok:
+        stream_rows(ctx, cases, outs)
+    stream_estimated(ctx)
     if ctx.broken:
         failing_input_search(ctx, br if not br.ok else None)
 
